@@ -30,8 +30,24 @@ var profC01 = ConcProfile{
 	MaxBlocks: 4, MaxBlockOps: 10, Pars: 2, CancelIn: 10, PerturbMax: 3, HoldPct: 40, SyncPct: 60,
 }
 
+// profC01Seq: clocked single-client histories (adds, removals and render cycles
+// in every order) with a mix of bars with and without synchronised decorators.
+var profC01Seq = Profile{
+	MaxBars: 7, MinBars: 2, MaxSteps: 40, Refresh: []string{"manual", "autoinj"}, QLens: []int{-1, 0, 1, -2, -3},
+	Pop: 25, Queue: 20, Prio: true, Text: 1, Rm: 45, NoPop: 15, AbortW: 3, TicksW: 10,
+	SyncDecors: 1, PlainDecors: 1, Wraps: true, NoDecorPct: 30, ChurnW: 4, Fillers: []string{"tag", "nop"}, LateAdd: true, Cancel: 8,
+}
+
 func genC01(t *rapid.T) interface{} {
 	excludedKnown = 0
+	if rapid.IntRange(0, 2).Draw(t, "sequential") == 0 {
+		sc := genScenario(t, &profC01Seq)
+		if sc.Cfg.Refresh == "manual" {
+			excludedKnown += int64(repairQueue(sc))
+		}
+		vstat.Excluded(excludedKnown)
+		return sc
+	}
 	sc := genConcurrent(t, &profC01)
 	c01Exclude(sc)
 	vstat.Excluded(excludedKnown)
@@ -92,6 +108,9 @@ func runC01(ci interface{}) Result {
 	}
 	if len(sc.Perturb.Holds) > 0 {
 		r.Classes = append(r.Classes, "hold")
+	}
+	if !hasPar(sc) {
+		r.Classes = append(r.Classes, "clocked")
 	}
 	if tr.Hang != nil {
 		dumpHang(sc, tr)
